@@ -81,7 +81,10 @@ fn eval_inner(state: &mut RunState, line: &'static str) -> Result<()> {
     }
 
     // Check labels
-    let mut asm = AsmLine::new(0, stmt, Span::dummy());
+    // Label offsets are relative to the line of the statement, and the instruction is executed
+    // with the current PC, so the statement must be placed on the line corresponding to the PC
+    let line = state.pc().wrapping_sub(state.orig());
+    let mut asm = AsmLine::new(line, stmt, Span::dummy());
     asm.backpatch()?;
 
     // Compile and execute
